@@ -25,6 +25,11 @@ def jobs(prop, tier, seed):
             out.append(dict(harness="C13", variant="deser", pool="union", pid=pid, opts=o, bounds=b, budget_s=40 if q else 150))
         b = dict(depth=2, width=2, strlen=2) if q else dict(depth=3, width=3, strlen=3)
         out.append(dict(harness="C13", variant="ser", pool="union", pid=pid, opts={}, bounds=b, budget_s=25 if q else 120))
+        if pid.startswith(("disc", "list(disc", "tagged")):
+            # the discriminator key is an external name: same aliaser on both sides
+            out.append(dict(harness="C13", variant="ser", pool="union", pid=pid, opts={"aliaser": "prefix"}, bounds=b, budget_s=25 if q else 120))
+            bd = dict(depth=2, width=2, strlen=2, budget=2)
+            out.append(dict(harness="C13", variant="deser", pool="union", pid=pid, opts={"aliaser": "prefix"}, bounds=bd, budget_s=40 if q else 150))
     return out
 
 
@@ -187,7 +192,7 @@ class Deser:
     def tagged(self, d, u):
         if not isinstance(d, dict):
             return None if u[0] == "err" else Failure("tagged-accepts-non-object", witness=d)
-        tags = [f.name for f in self.core.a]
+        tags = [self.opts.aliaser(f.name) for f in self.core.a]
         present = [t for t in tags if t in d]
         extra = [k for k in d if k not in tags]
         if len(present) != 1 or extra:
@@ -203,8 +208,13 @@ class Ser:
         self.prog = program_of(job)
         ns = self.prog.module.__dict__
         self.core, self.wrap = unwrap(self.prog.spec)
-        self.S = serialization_method(self.prog.tp)
-        self.D = deserialization_method(self.prog.tp)
+        from vf.harness.common import get_aliaser
+
+        al = get_aliaser(job.get("opts", {}).get("aliaser"))
+        akw = {"aliaser": al} if al else {}
+        self.al = al or (lambda x: x)
+        self.S = serialization_method(self.prog.tp, **akw)
+        self.D = deserialization_method(self.prog.tp, **akw)
         self.VE = ValidationError
         if self.wrap == "ann":
             alts = flat_alts(self.core.a[0], self.core.o)
@@ -217,7 +227,7 @@ class Ser:
             alts = []
         k = self.core.k
         self.alts = alts
-        self.alt_ser = [serialization_method(type(None) if a.k == "none" else eval(tyexpr(a), ns)) for a in alts]
+        self.alt_ser = [serialization_method(type(None) if a.k == "none" else eval(tyexpr(a), ns), **akw) for a in alts]
         self.bounds = bounds_of(job)
         self.ref = RefSer(self.prog)
         self.functions = sorted(set(method_classes(self_of(self.S)) + [f for m in self.alt_ser for f in method_classes(self_of(m))]))
@@ -244,7 +254,7 @@ class Ser:
         idx = next((i for i, a in enumerate(self.alts) if self.ref.matches(a, v)), None)
         if self.core.k == "disc" and isinstance(v, dict):
             # TypedDict alternatives are told apart by their discriminator field
-            alias = self.core.opt("alias")
+            alias = self.core.opt("alias")  # key of the TypedDict value (field name)
             by_key = dict(self.core.opt("mapping"))
             idx = next((i for i, a in enumerate(self.alts) if a.opt("name") == by_key.get(v.get(alias))), None)
         if idx is None:
@@ -252,7 +262,7 @@ class Ser:
         exp = self.alt_ser[idx](v)
         ctx.notes["tag:compared"] = True
         if self.core.k == "disc":
-            alias = self.core.opt("alias")
+            alias = self.al(self.core.opt("alias"))
             cls = self.alts[idx].opt("name")
             keys = [k for k, c in self.core.opt("mapping") if c == cls]
             if not isinstance(out, dict) or alias not in out:
